@@ -227,6 +227,20 @@ def random_step(R: Draw, g: DocGen, doc: dict, n: int) -> dict:
             a = R.int(max(0, start - 2), start + size - 1)
             b = R.int(a, min(n, start + size + 2))
             return {"k": k, "from": a, "to": b, "mark": g.mark(R, mname)}
+        if k == "addMark" and R.bool(0.3):
+            # a range that starts before and ends after a whole inline-content node which forbids the mark
+            from ..ref import resolve as RR
+
+            spots = [
+                (s_, k_.size, m)
+                for k_, s_, _par, _i, _d in RR.all_nodes(RR.N(doc, rs))
+                if k_.t != "text" and not rs.leaf[k_.t] and rs.inline_content[k_.t] and k_.size > 2
+                for m in rs.mark_names
+                if not rs.allows_mark(k_.t, m)
+            ]
+            if spots:
+                s_, z, m = R.choice(spots)
+                return {"k": k, "from": max(0, s_ - R.int(0, 3)), "to": min(n, s_ + z + R.int(0, 3)), "mark": g.mark(R, m)}
         if k in ("addMark", "removeMark"):
             a = pos()
             b = pos() if wild else R.int(a, min(n, a + R.int(0, 10)))
@@ -239,7 +253,7 @@ def random_step(R: Draw, g: DocGen, doc: dict, n: int) -> dict:
     return {"k": k, "attr": R.choice(names), "value": copy.deepcopy(R.choice(_JSON_VALUES))}
 
 
-def perturb_step(R: Draw, g: DocGen, d: dict, n: int) -> dict:
+def perturb_step(R: Draw, g: DocGen, d: dict, n: int, force: str | None = None) -> dict:
     """One field of a (genuine) step changed: plausible but wrong."""
     rs = g.rs
     d = copy.deepcopy(d)
@@ -257,7 +271,7 @@ def perturb_step(R: Draw, g: DocGen, d: dict, n: int) -> dict:
         choices += ["mark"]
     if k in ("attr", "docAttr"):
         choices += ["value", "attr"]
-    f = R.choice(choices)
+    f = force if force in choices else R.choice(choices)
     if f in ("from", "to", "gapFrom", "gapTo", "pos"):
         d[f] = max(0, min(n, d[f] + R.choice([-3, -2, -1, 1, 2, 3])))
     elif f == "insert":
